@@ -13,7 +13,7 @@ RULE = ("annotations from the C01 generator (valid, and with one tree-level faul
 ASSUMPTIONS = ["relational monitor: a defect affecting both executions identically is invisible here (C01 covers that)",
                "only ERROR severity is compared (capitalisation warnings legitimately depend on spelling)"]
 MIN_MONITOR_EVALS = {"revalidation-stable": 3000, "codes-equal-under-rewrite": 3000, "repeat-reported-anywhere": 100}
-MIN_KINDS = {"base-kind": {"mixed-toplevel": 50}, "rewrite": {"respace-text": 1000}}
+MIN_KINDS = {"base-kind": {"mixed-toplevel": 50, "same-base-repeat": 50}, "rewrite": {"respace-text": 1000}}
 TREE_KINDS = ["unknown-tag", "extension-forbidden", "extension-is-schema-term", "requires-child", "bad-unit", "bad-value",
               "repeated-tag", "repeated-group", "taggroup-outside-group", "toplevel-nested", "empty-group",
               "stray-placeholder", "undeclared-def", "def-extra-value", "def-missing-value", "altered-def-expand",
@@ -118,6 +118,43 @@ def mixed_toplevel(gen, items, rng):
     return items
 
 
+def same_base_repeat(gen, items, rng):
+    """A group holding two tags of one node with different values (or extensions), repeated with its members written
+    in another order: the repeat must be reported however the copies are written and wherever they sit."""
+    import copy
+    items = copy.deepcopy(items)
+    if gen.values and rng.random() < 0.6:
+        n = rng.choice(gen.values)
+        vals = []
+        for _ in range(20):
+            x = gen.value_for(n)
+            if x.casefold() not in [y.casefold() for y in vals]:
+                vals.append(x)
+            if len(vals) == 2:
+                break
+        role = "value"
+    else:
+        if not gen.ext:
+            return None
+        n = rng.choice(gen.ext)
+        vals = rng.sample(annot.EXT_WORDS, 2) if len(annot.EXT_WORDS) >= 2 else []
+        role = "ext"
+    if len(vals) < 2:
+        return None
+    t1 = annot.tag(gen.spell(n), "/" + vals[0], n.path, role)
+    t2 = annot.tag(gen.spell(n), "/" + vals[1], n.path, role)
+    other = gen._plain_atom()
+    g1 = annot.group([t1, t2, other])
+    g2 = annot.group([copy.deepcopy(t2), copy.deepcopy(other), copy.deepcopy(t1)])
+    if rng.random() < 0.5:
+        # the two copies as members of one group, else at the top level
+        items.append(annot.group([g1, gen._plain_atom(), g2]))
+    else:
+        items.insert(rng.randrange(0, len(items) + 1), g1)
+        items.insert(rng.randrange(0, len(items) + 1), g2)
+    return items
+
+
 def run_shard(shard, rec):
     rng = rec.rng
     v = shard["version"]
@@ -145,6 +182,16 @@ def run_shard(shard, rec):
             gen.used = saved
             if m is not None and m["items"] is not None:
                 items, kind = m["items"], k
+        if kind == "valid" and rng.random() < 0.15:
+            saved = set(gen.used)
+            try:
+                it3 = same_base_repeat(gen, items, rng)
+            except RuntimeError:
+                it3 = None
+            gen.used = saved
+            if it3 is not None:
+                items, kind = it3, "repeated-group"
+                rec.count("base-kind", "same-base-repeat")
         if kind == "valid" and rng.random() < 0.25:
             saved = set(gen.used)
             try:
